@@ -230,6 +230,9 @@ func (g *G) validationReply(atNs int64, st storedSpec) Reply {
 		h := Hdr{{"Date", dateAt(atNs, 0)}}
 		if g.chance(0.5) {
 			h = append(h, [2]string{"Cache-Control", "max-age=" + strconv.FormatInt(g.lifetime(), 10)})
+		} else if g.chance(0.2) {
+			// a 304 that must not be stored: nothing of it may reach the store
+			h = append(h, [2]string{"Cache-Control", pick(g, "no-store", "no-store, max-age=60", "NO-STORE")})
 		}
 		if g.chance(0.5) {
 			h = append(h, [2]string{"X-New", "n1"})
